@@ -23,11 +23,11 @@
 
 use identity_core::common::{Object, Timestamp, Url};
 use identity_core::convert::FromJson;
-use identity_credential::credential::Credential;
+use identity_credential::credential::{Credential, Jwt};
 use identity_credential::revocation::RevocationBitmap;
 use identity_credential::sd_jwt_payload::{Disclosure, KeyBindingJwtClaims, SdJwt, SdObjectDecoder, SdObjectEncoder};
 use identity_credential::validator::{
-  FailFast, JwtCredentialValidationOptions, JwtValidationError, KeyBindingJWTValidationOptions, KeyBindingJwtError,
+  FailFast, JwtCredentialValidationOptions, JwtCredentialValidator, JwtValidationError, KeyBindingJWTValidationOptions, KeyBindingJwtError,
   SdJwtCredentialValidator, StatusCheck,
 };
 use identity_did::{CoreDID, DIDUrl};
@@ -50,7 +50,7 @@ use vx::{guard, json, Ctx, Level, Value};
 enum Case {
   /// (a): choice sequence of `issuer_body`
   Issuer { seq: Vec<u32> },
-  /// (b): the binding-core tuple (entry, key, kid, override, scope, iss, header nonce, option nonce) + choice sequence of the rest
+  /// (b): the binding-core tuple (entry, key, kid, override, scope, iss, nonce pair) + choice sequence of the rest
   IssuerCore { core: Vec<u32>, seq: Vec<u32> },
   /// (c): choice sequence of `kb_body`
   Kb { seq: Vec<u32> },
@@ -220,8 +220,29 @@ fn compact(header: &Value, payload_signed: &str, payload_shipped: &str, key: &Ed
   format!("{h}.{}.{}", fx::b64(payload_shipped.as_bytes()), fx::b64(sig))
 }
 
-const SALTS: [&str; 3] = ["c2FsdC1uYW1lLTAxMjM0NTY3ODk", "c2FsdC1kZWdyZWUtMDEyMzQ1Njc4", "c2FsdC1sYW5nLTAxMjM0NTY3ODk"];
-const PATHS: [&str; 3] = ["/vc/credentialSubject/name", "/vc/credentialSubject/degree/name", "/vc/credentialSubject/langs/1"];
+/// Concealable claims: a subject property, a nested member, an array element, a member of a concealed object
+/// (its digest lives inside the next disclosure), and that object.
+const N: usize = 5;
+const SALTS: [&str; N] = [
+  "c2FsdC1uYW1lLTAxMjM0NTY3ODk",
+  "c2FsdC1kZWdyZWUtMDEyMzQ1Njc4",
+  "c2FsdC1sYW5nLTAxMjM0NTY3ODk",
+  "c2FsdC1jaXR5LTAxMjM0NTY3ODk",
+  "c2FsdC1hZGRyZXNzLTAxMjM0NTY3",
+];
+const PATHS: [&str; N] = [
+  "/vc/credentialSubject/name",
+  "/vc/credentialSubject/degree/name",
+  "/vc/credentialSubject/langs/1",
+  "/vc/credentialSubject/address/city",
+  "/vc/credentialSubject/address",
+];
+const WITHHOLD: [&str; N] =
+  ["withhold subject property", "withhold nested member", "withhold array element", "withhold member of concealed object", "withhold concealed object"];
+fn subject_props() -> Value {
+  json!({"name": "Alice", "degree": {"type": "BachelorDegree", "name": "Bachelor of Science"}, "langs": ["en", "de", "fr"],
+    "address": {"city": "Berlin", "zip": "10115"}})
+}
 const ISS_DATE: i64 = NOW - 1000;
 const EXP_DATE: i64 = NOW + 1000;
 
@@ -233,16 +254,15 @@ struct Built {
   disclosures: Vec<Disclosure>,
 }
 
-/// SD-encode `claims` concealing the three claims (if the subject carries them).
+/// SD-encode `claims` concealing the N claims (if the subject carries them).
 fn sd_encode(claims: &Value, concealable: bool, sd_alg: usize) -> Built {
   let mut enc = SdObjectEncoder::new(&claims.to_string()).expect("encoder");
   let mut disclosures = Vec::new();
   if concealable {
-    // array element first so that its index is still valid
-    let d2 = enc.conceal(PATHS[2], Some(SALTS[2].to_string())).expect("conceal array element");
-    let d1 = enc.conceal(PATHS[1], Some(SALTS[1].to_string())).expect("conceal nested member");
-    let d0 = enc.conceal(PATHS[0], Some(SALTS[0].to_string())).expect("conceal subject property");
-    disclosures = vec![d0, d1, d2];
+    // the member of the object before the object itself (recursive disclosure)
+    for i in 0..N {
+      disclosures.push(enc.conceal(PATHS[i], Some(SALTS[i].to_string())).expect("conceal"));
+    }
   }
   if sd_alg == 0 {
     enc.add_sd_alg_property();
@@ -257,7 +277,7 @@ fn sd_encode(claims: &Value, concealable: bool, sd_alg: usize) -> Built {
 }
 
 /// The credential in VC data-model form with the claims `withheld` removed (the oracle's expected result).
-fn expected_credential(vc_form: &Value, concealable: bool, presented: &[bool; 3]) -> Result<Credential, String> {
+fn expected_credential(vc_form: &Value, concealable: bool, presented: &[bool; N]) -> Result<Credential, String> {
   let mut v = vc_form.clone();
   if concealable {
     let s = v["credentialSubject"].as_object_mut().unwrap();
@@ -269,6 +289,11 @@ fn expected_credential(vc_form: &Value, concealable: bool, presented: &[bool; 3]
     }
     if !presented[2] {
       s["langs"].as_array_mut().unwrap().remove(1);
+    }
+    if !presented[4] {
+      s.remove("address");
+    } else if !presented[3] {
+      s["address"].as_object_mut().unwrap().remove("city");
     }
   }
   Credential::from_json_value(v).map_err(|e| format!("expected credential does not deserialise: {e}"))
@@ -286,7 +311,7 @@ enum Tamper {
 }
 
 /// The presented disclosure list.
-fn present(all: &[Disclosure], presented: &[bool; 3], tamper: Tamper) -> Vec<String> {
+fn present(all: &[Disclosure], presented: &[bool; N], tamper: Tamper) -> Vec<String> {
   let mut out: Vec<String> = all.iter().zip(presented).filter(|(_, p)| **p).map(|(d, _)| d.to_string()).collect();
   match tamper {
     Tamper::None => {}
@@ -325,8 +350,10 @@ const ENTRY: [&str; 3] = [
   "SdJwtCredentialValidator::verify_signature",
   "SdJwtCredentialValidator::verify_signature[2 issuers]",
 ];
-const ISSUER_CORE_DIMS: [usize; 8] = [3, 6, 9, 4, 4, 5, 3, 3];
-const NONCES: [Option<&str>; 3] = [None, Some("nonce-1"), Some("nonce-2")];
+const ISSUER_CORE_DIMS: [usize; 7] = [3, 6, 9, 4, 4, 5, 5];
+/// (nonce in the protected header, nonce in the options): all five patterns of two values up to renaming.
+const NONCE_PAIRS: [(Option<&str>, Option<&str>); 5] =
+  [(None, None), (Some("nonce-1"), Some("nonce-1")), (Some("nonce-1"), None), (None, Some("nonce-1")), (Some("nonce-1"), Some("nonce-2"))];
 
 fn blame_issuer(e: &JwtValidationError) -> &'static str {
   match e {
@@ -362,8 +389,7 @@ fn issuer_body(ctx: &Ctx, src: &mut Src, mk: &dyn Fn(Vec<u32>) -> Case, part: &'
   let ovr = src.core("method_id", 4);
   let scope = Scope::of(src.core("method_scope", 4));
   let iss = src.core("iss", 5);
-  let hdr_nonce = NONCES[src.core("header-nonce", 3)];
-  let opt_nonce = NONCES[src.core("option-nonce", 3)];
+  let (hdr_nonce, opt_nonce) = NONCE_PAIRS[src.core("nonce header/option", 5)];
   // ---- the rest
   let exp_absent = src.other("exp-absent", 2) == 1;
   let latest = [None, Some(ISS_DATE + 1), Some(ISS_DATE), Some(ISS_DATE - 1)][src.other("latest_issuance_date", 4)];
@@ -375,13 +401,11 @@ fn issuer_body(ctx: &Ctx, src: &mut Src, mk: &dyn Fn(Vec<u32>) -> Case, part: &'
   let fail_fast_all = src.other("FailFast", 2) == 1;
   let sd_alg = src.other("_sd_alg", 3); // sha-256, absent, sha-512 (no hasher)
   let concealable = structure != 4;
-  let mut presented = [true; 3];
+  let mut presented = [false; N];
   if concealable {
-    presented[0] = src.other("withhold subject property", 2) == 0;
-    presented[1] = src.other("withhold nested member", 2) == 0;
-    presented[2] = src.other("withhold array element", 2) == 0;
-  } else {
-    presented = [false; 3];
+    for i in 0..N {
+      presented[i] = src.other(WITHHOLD[i], 2) == 0;
+    }
   }
   let n_presented = presented.iter().filter(|p| **p).count();
   let mut tampers = vec![Tamper::None, Tamper::Forged, Tamper::Foreign, Tamper::GarbageNotB64, Tamper::GarbageNotArray];
@@ -392,6 +416,8 @@ fn issuer_body(ctx: &Ctx, src: &mut Src, mk: &dyn Fn(Vec<u32>) -> Case, part: &'
     tampers.push(Tamper::Reversed);
   }
   let tamper = tampers[src.other("disclosure-tamper", tampers.len())];
+  // validate_credential documents that an attached KB-JWT is not looked at
+  let kb_attached = src.other("kb-jwt-attached", 2) == 1;
   let case = mk(src.ch.seq());
   fx::set_now(clock);
 
@@ -403,11 +429,7 @@ fn issuer_body(ctx: &Ctx, src: &mut Src, mk: &dyn Fn(Vec<u32>) -> Case, part: &'
     _ => json!(["https://www.w3.org/2018/credentials/v1", "https://www.w3.org/2018/credentials/examples/v1"]),
   };
   let types = if structure == 3 { json!(["UniversityDegreeCredential"]) } else { json!(["VerifiableCredential", "UniversityDegreeCredential"]) };
-  let subject_props = if concealable {
-    json!({"name": "Alice", "degree": {"type": "BachelorDegree", "name": "Bachelor of Science"}, "langs": ["en", "de", "fr"]})
-  } else {
-    json!({})
-  };
+  let subject_props = if concealable { subject_props() } else { json!({}) };
   let status_json: Option<Value> = match status {
     0 => None,
     1 => Some(json!({"id": "did:vx:issuer?index=3#rev", "type": "RevocationBitmap2022", "revocationBitmapIndex": "3"})),
@@ -466,7 +488,7 @@ fn issuer_body(ctx: &Ctx, src: &mut Src, mk: &dyn Fn(Vec<u32>) -> Case, part: &'
     ctx.require(false, "issuer: payload tampering did not change the payload");
   }
   let jwt = compact(&header, &built.payload, &shipped, sign_key);
-  let sd_jwt = SdJwt::new(jwt, disclosures, None);
+  let sd_jwt = SdJwt::new(jwt, disclosures, if kb_attached { Some("this.is.not-a-kb-jwt".to_string()) } else { None });
 
   // ---- options
   let ovr_str: Option<&str> = [None, Some("did:vx:issuer#m1"), Some("did:vx:issuer#m3"), Some("did:vx:issuer2#j1")][ovr];
@@ -549,6 +571,10 @@ fn issuer_body(ctx: &Ctx, src: &mut Src, mk: &dyn Fn(Vec<u32>) -> Case, part: &'
       }
     }
   }
+  if presented[3] && !presented[4] {
+    // its digest is only inside the withheld disclosure of the object: not present in what was signed and presented
+    f_sig.insert("disclosures:member-without-its-concealed-parent".into());
+  }
   match tamper {
     Tamper::Forged => drop(f_sig.insert("disclosures:forged-value".into())),
     Tamper::Foreign => drop(f_sig.insert("disclosures:foreign".into())),
@@ -607,12 +633,15 @@ fn issuer_body(ctx: &Ctx, src: &mut Src, mk: &dyn Fn(Vec<u32>) -> Case, part: &'
   fx::set_now(NOW);
   let describe = || format!("{} | false: {:?} {:?} | open: {:?}", src.describe(), f_sig, f_post, open);
   let label;
+  let sd_verdict: Vec<&'static str>;
   match result {
     Err(p) => {
       ctx.violation(&format!("{name}|{}", p.key()), &format!("{} @ {} | {}", p.msg, p.loc, describe()), &case);
       label = "panic".to_string();
+      sd_verdict = vec!["panic"];
     }
     Ok(Ok(decoded)) => {
+      sd_verdict = vec!["accepted"];
       for c in &must {
         ctx.violation(&format!("{name}|accepted|{c}"), &describe(), &case);
       }
@@ -639,6 +668,7 @@ fn issuer_body(ctx: &Ctx, src: &mut Src, mk: &dyn Fn(Vec<u32>) -> Case, part: &'
     }
     Ok(Err(errors)) => {
       let blamed: Vec<&'static str> = errors.iter().map(blame_issuer).collect();
+      sd_verdict = errors.iter().map(|e| e.into()).collect();
       if errors.is_empty() {
         ctx.violation(&format!("{name}|rejected|no-error-reported"), &describe(), &case);
       }
@@ -661,11 +691,42 @@ fn issuer_body(ctx: &Ctx, src: &mut Src, mk: &dyn Fn(Vec<u32>) -> Case, part: &'
           }
         }
       }
-      label = format!("rejected:{}", blamed.first().copied().unwrap_or("none"));
+      let variant: &'static str = errors.first().map(|e| e.into()).unwrap_or("none");
+      label = format!("rejected:{}/{variant}", blamed.first().copied().unwrap_or("none"));
+    }
+  }
+  // "the same issuer, kid, scope and nonce rules ... the same date, structure and status checks as a plain JWT
+  // credential": with unobjectionable disclosures the verdict equals that of JwtCredentialValidator on the same claims
+  // (nothing concealed), same header, same key, same options.
+  if tamper == Tamper::None && sd_alg == 0 && !(presented[3] && !presented[4]) {
+    let plain_payload = claims.to_string();
+    let plain_shipped = if sig == 5 { plain_payload.replace("\"vx_custom\":7", "\"vx_custom\":8") } else { plain_payload.clone() };
+    let plain = Jwt::new(compact(&header, &plain_payload, &plain_shipped, sign_key));
+    let pv = JwtCredentialValidator::with_signature_verifier(EdDSAJwsVerifier::default());
+    fx::set_now(clock);
+    let r = guard(|| match entry {
+      0 => pv
+        .validate::<_, Object>(&plain, w.doc(I), &options, if fail_fast_all { FailFast::AllErrors } else { FailFast::FirstError })
+        .map_err(|e| e.validation_errors),
+      1 => pv.verify_signature::<_, Object>(&plain, &[w.doc(I)], &vo).map_err(|e| vec![e]),
+      _ => pv.verify_signature::<_, Object>(&plain, &[w.doc(J), w.doc(I)], &vo).map_err(|e| vec![e]),
+    });
+    fx::set_now(NOW);
+    let plain_verdict: Vec<&'static str> = match &r {
+      Err(_) => vec!["panic"],
+      Ok(Ok(_)) => vec!["accepted"],
+      Ok(Err(es)) => es.iter().map(|e| e.into()).collect(),
+    };
+    if plain_verdict != sd_verdict {
+      ctx.violation(
+        &format!("{name}|verdict-differs-from-plain-jwt-credential|sd-jwt={}|plain={}", sd_verdict.join("+"), plain_verdict.join("+")),
+        &describe(),
+        &case,
+      );
     }
   }
   ctx.outcome(&format!("{part}:{}:{label}", ["validate", "verify1", "verify2"][entry]));
-  if label != "rejected:jws-wellformed" {
+  if !label.starts_with("rejected:jws-wellformed") {
     ctx.distinct(&(part, src.core.map(|c| c.to_vec()), src.ch.seq()));
   }
   if src.ch.deviations() <= 1 && src.core.map_or(true, |c| c.iter().sum::<u32>() <= 1 && src.ch.deviations() == 0) {
@@ -677,16 +738,49 @@ fn issuer_body(ctx: &Ctx, src: &mut Src, mk: &dyn Fn(Vec<u32>) -> Case, part: &'
 const KB: &str = "SdJwtCredentialValidator::validate_key_binding_jwt";
 const IAT0: i64 = NOW - 10;
 
-/// typ alternatives: the constant the library's own encoder side publishes first (that is how the repository's tests
-/// type their KB-JWTs), then the literal of the property statement, then wrong ones.
-fn typ_alphabet() -> Vec<Option<&'static str>> {
-  let mut v: Vec<Option<&'static str>> = vec![Some(KeyBindingJwtClaims::KB_JWT_HEADER_TYP)];
-  for t in [Some("kb+jwt"), Some("JWT"), None, Some("KB+JWT"), Some("kb+jwt ")] {
+/// typ alternatives. The statement says `kb+jwt`; sd-jwt-payload 0.2.1 publishes KB_JWT_HEADER_TYP = " kb+jwt" (leading
+/// space) and the repository's tests type their KB-JWTs with that constant. Alternative 0 must be the one the
+/// implementation accepts on the otherwise benign token, or everything behind the typ test is unreachable: the literal of
+/// the statement if the implementation accepts it, else the library constant if that is accepted (probed once per
+/// process on the real validator; deterministic for a given tree). The oracle always judges against the literal.
+static TYPS: Lazy<Vec<Option<&'static str>>> = Lazy::new(|| {
+  let lit = Some("kb+jwt");
+  let lib = Some(KeyBindingJwtClaims::KB_JWT_HEADER_TYP);
+  let mut v = vec![lit];
+  if lib != lit {
+    if !probe_typ(lit) && probe_typ(lib) {
+      v.insert(0, lib);
+    } else {
+      v.push(lib);
+    }
+  }
+  for t in [Some("JWT"), None, Some("KB+JWT"), Some("kb+jwt ")] {
     if !v.contains(&t) {
       v.push(t);
     }
   }
   v
+});
+fn typ_alphabet() -> Vec<Option<&'static str>> {
+  TYPS.clone()
+}
+/// Does the real validator accept the benign KB-JWT when it is typed `typ`?
+fn probe_typ(typ: Option<&str>) -> bool {
+  let w = &*WORLD;
+  let claims = json!({"iss": I, "nbf": ISS_DATE, "sub": H, "vc": {"@context": ["https://www.w3.org/2018/credentials/v1"],
+    "type": ["VerifiableCredential"], "credentialSubject": subject_props()}});
+  let built = sd_encode(&claims, true, 0);
+  let jwt = compact(&json!({"alg": "EdDSA", "typ": "JWT", "kid": "did:vx:issuer#m1"}), &built.payload, &built.payload, w.key(1));
+  let ds: Vec<String> = built.disclosures.iter().map(|d| d.to_string()).collect();
+  let kb = json!({"iat": IAT0, "aud": "did:vx:verifier", "nonce": "nonce-1", "sd_hash": b64_sha256(&format!("{jwt}~{}~", ds.join("~")))}).to_string();
+  let mut header = json!({"alg": "EdDSA", "kid": "did:vx:holder#h1"});
+  if let Some(t) = typ {
+    header["typ"] = json!(t);
+  }
+  let sd_jwt = SdJwt::new(jwt, ds, Some(compact(&header, &kb, &kb, w.key(7))));
+  let validator = SdJwtCredentialValidator::with_signature_verifier(EdDSAJwsVerifier::default(), SdObjectDecoder::new_with_sha256());
+  fx::set_now(NOW);
+  matches!(guard(|| validator.validate_key_binding_jwt(&sd_jwt, w.doc(H), &KeyBindingJWTValidationOptions::new())), Ok(Ok(_)))
 }
 fn typ_class(t: Option<&str>) -> &'static str {
   match t {
@@ -748,10 +842,10 @@ fn kb_body(ctx: &Ctx, src: &mut Src, mk: &dyn Fn(Vec<u32>) -> Case, part: &'stat
   let holder_doc = [H, F][src.core("holder-document", 2)];
   // ---- the rest
   let kb_absent = src.other("kb-jwt-absent", 2) == 1;
-  let mut presented = [true; 3];
-  presented[0] = src.other("withhold subject property", 2) == 0;
-  presented[1] = src.other("withhold nested member", 2) == 0;
-  presented[2] = src.other("withhold array element", 2) == 0;
+  let mut presented = [true; N];
+  for i in 0..N {
+    presented[i] = src.other(WITHHOLD[i], 2) == 0;
+  }
   let n_presented = presented.iter().filter(|p| **p).count();
   let sd_alg = src.other("_sd_alg", 3);
   let issuer_jwt_garbage = src.other("issuer-jwt-not-a-jws", 2) == 1;
@@ -786,7 +880,7 @@ fn kb_body(ctx: &Ctx, src: &mut Src, mk: &dyn Fn(Vec<u32>) -> Case, part: &'stat
   let claims = json!({
     "iss": I, "nbf": ISS_DATE, "jti": "https://issuer.example/credentials/3732", "sub": H, "exp": EXP_DATE,
     "vc": {"@context": ["https://www.w3.org/2018/credentials/v1"], "type": ["VerifiableCredential", "UniversityDegreeCredential"],
-      "credentialSubject": {"name": "Alice", "degree": {"type": "BachelorDegree", "name": "Bachelor of Science"}, "langs": ["en", "de", "fr"]}}
+      "credentialSubject": subject_props()}
   });
   let built = sd_encode(&claims, true, sd_alg);
   let jwt = if issuer_jwt_garbage {
@@ -985,8 +1079,8 @@ fn kb_body(ctx: &Ctx, src: &mut Src, mk: &dyn Fn(Vec<u32>) -> Case, part: &'stat
     }
   }
   let mut all_false = names(&f);
-  if !kb_absent && hash == Hash::Absent {
-    // a missing member may be reported as such
+  if !kb_absent && (hash == Hash::Absent || nonce_claim.is_none() || aud_claim.is_none() || iat_kind == 3) {
+    // a missing or mistyped member may be reported as such
     all_false.insert("claims-wellformed".into());
   }
 
@@ -1099,12 +1193,12 @@ fn generate(ctx: &Ctx) {
   ctx.rule("E1 choice DFS over hand-assembled, harness-signed SD-JWTs and KB-JWTs; alternative 0 of every point is the benign one. (a),(c): every choice sequence with at most B deviations; (b),(d): full product of the binding-core tuple crossed with at most B' deviations of the remaining points. distinct_nontrivial = distinct (part, core tuple, choice sequence) whose outcome is not the trivial early reject (undecodable token / KB-JWT absent)");
   ctx.assume("Ed25519 (iota-crypto) signing in the harness and SHA-256 (sha2) are correct; sd-jwt-payload 0.2's SdObjectEncoder::conceal with fixed salts produces the disclosures and digests of the draft (the decoder side is under test together with the validator)");
   ctx.assume("the document table in the check (METHODS) describes the documents built from it through CoreDocument::builder; method resolution itself is the subject of C04/C02");
-  ctx.assume("typ: the property says `kb+jwt`; sd-jwt-payload 0.2.1 publishes KB_JWT_HEADER_TYP = \" kb+jwt\" (leading space) and the validator compares against that constant — the default alternative is the library constant so that the remaining conditions are reachable, the literal `kb+jwt` is alternative 1, and the oracle judges against the literal");
+  ctx.assume("typ: the property says `kb+jwt`; sd-jwt-payload 0.2.1 publishes KB_JWT_HEADER_TYP = \" kb+jwt\" (leading space). Alternative 0 of the typ point is the literal `kb+jwt` if the validator accepts the benign token typed so, else the library constant (see bounds.typ_alphabet); the oracle judges against the literal in either case");
   Lazy::force(&WORLD);
   let b = ctx.by_tier(2u32, 3u32);
   ctx.bound("deviation_bound", b);
   ctx.bound("core_product_other_deviations", ctx.by_tier(0u32, 1u32));
-  ctx.bound("issuer_core_dims(entry,key,kid,method_id,scope,iss,header-nonce,option-nonce)", ISSUER_CORE_DIMS);
+  ctx.bound("issuer_core_dims(entry,key,kid,method_id,scope,iss,nonce-pair)", ISSUER_CORE_DIMS);
   ctx.bound("kb_core_dims(typ,alg,key,kid,method_id,scope,holder-document)", kb_core_dims());
   ctx.bound("typ_alphabet", typ_alphabet());
 
